@@ -232,11 +232,43 @@ def dead_end_template(rng):
         prems.append(dia(body) if rng.random() < 0.85 else dia(dia(body)))
     if rng.random() < 0.35:
         prems.append(box(dia(('A', 2, 0))))
+    if rng.random() < 0.35 and len(prems) >= 2:
+        # the dead ends under a disjunction: a chain of worlds on one branch, a fork of worlds on the other
+        left = dia(prems[0])
+        right = ('O', 'Conjunction', (prems[1], prems[2] if len(prems) > 2 else dia(box(lit()))))
+        prems = [('O', 'Disjunction', (left, right) if rng.random() < 0.5 else (right, left))] + prems[3:]
     rng.shuffle(prems)
     r = rng.random()
     conc = ('A', 1, 0) if r < 0.5 else (dia(lit()) if r < 0.75 else ('O', 'Negation', (rng.choice(prems),)))
     if conc[0] == 'O' and conc[1] == 'Negation' and conc[2][0] in prems and len(prems) > 1:
         prems.remove(conc[2][0])
+    return prems, conc
+
+def modal_interplay_template(rng):
+    """(a) the same modal sentence required at several worlds (s, box s, a further possibility);
+    (b) several boxes whose contents meet under one possibility (necessity distribution), with a
+    conclusion that branches inside the new world."""
+    atoms = [('A', i, 0) for i in rng.sample(range(4), 4)]
+    x, y, z, w = atoms
+    def neg(s): return ('O', 'Negation', (s,))
+    def box(s): return ('O', 'Necessity', (s,))
+    def dia(s): return ('O', 'Possibility', (s,))
+    def lit(a): return a if rng.random() < 0.75 else neg(a)
+    if rng.random() < 0.5:
+        inner = rng.choice((dia, dia, box))(x)
+        prems = [inner, box(inner), dia(y)]
+        if rng.random() < 0.5:
+            prems.append(dia(w))
+        prems.append(box(('O', rng.choice(('MaterialConditional', 'Conditional', 'Disjunction')), (neg(x) if rng.random() < 0.2 else x, z))))
+        conc = rng.choice((dia(z), dia(z), box(z), z, dia(dia(z))))
+    else:
+        lx, ly = lit(x), lit(y)
+        prems = [box(lx), box(ly), dia(lit(w))]
+        if rng.random() < 0.3:
+            prems.append(rng.choice((box(lx), box(lit(z)), dia(lit(z)))))
+        op = rng.choice(('Conjunction', 'Conjunction', 'Conjunction', 'Disjunction', 'MaterialConditional'))
+        conc = dia(('O', op, (ly, lx))) if rng.random() < 0.7 else box(('O', op, (lx, ly)))
+    rng.shuffle(prems)
     return prems, conc
 
 def witness_worlds_template(rng):
@@ -280,20 +312,24 @@ def witness_worlds_template(rng):
 def gen_case(rng, logic, fragment=None, p_example=0.3):
     prof = profile_for(rng, logic, fragment)
     sem = refsem.get(logic)
-    if fragment is None and sem.modal and sem.classical and rng.random() < 0.25:
-        return identity_modal_template(rng)
-    if fragment is None and sem.modal and sem.quantified and rng.random() < 0.1:
-        return modal_fo_template(rng, identity=sem.classical)
-    if fragment is None and sem.modal and sem.quantified and rng.random() < 0.08:
-        return witness_worlds_template(rng)
-    if fragment in (None, 'modal') and sem.modal and rng.random() < 0.08:
-        return deep_modal_template(rng)
-    if fragment in (None, 'modal') and sem.modal and rng.random() < (0.2 if sem.frame == 'D' else 0.05):
-        return dead_end_template(rng)
-    if fragment in (None, 'modal') and sem.modal and rng.random() < (0.5 if sem.frame == 'D' else 0.3):
-        return modal_template(rng)
-    if fragment in (None, 'fo') and sem.quantified and rng.random() < 0.15:
-        return fo_template(rng, identity=sem.classical)
+    # templates with a fixed share each (the rest: mutated library examples and free generation)
+    table = []
+    if sem.modal and fragment in (None, 'modal'):
+        serial = sem.frame == 'D'
+        table += [(0.06, deep_modal_template), (0.15 if serial else 0.07, dead_end_template),
+                  (0.10, modal_interplay_template),
+                  (0.25 if serial else (0.15 if fragment is None else 0.3), modal_template)]
+        if fragment is None and sem.quantified:
+            table += [(0.07, lambda r: modal_fo_template(r, identity=sem.classical)), (0.07, witness_worlds_template)]
+            if sem.classical:
+                table.append((0.12 if serial else 0.18, identity_modal_template))
+    if sem.quantified and fragment in (None, 'fo'):
+        table.append((0.05 if sem.modal else 0.15, lambda r: fo_template(r, identity=sem.classical)))
+    r = rng.random()
+    for wgt, fn in table:
+        if r < wgt:
+            return fn(rng)
+        r -= wgt
     if rng.random() < p_example:
         exs = example_args()
         for _ in range(8):
